@@ -732,6 +732,11 @@ class Interp:
                 if not isinstance(a, LV):
                     self.broken(fn, e, 'compound assignment to a non-lvalue')
                 r = self.arith(base, a.load(), self.rv(b), fn, e)
+                if isinstance(r, int) and not isinstance(r, bool):
+                    from .cfg import int_type
+                    tt = int_type(e.get('t'))
+                    if tt and not tt[1]:
+                        r &= (1 << tt[0]) - 1          # `size_t n += ptrdiff_t(-1)` wraps back into range
                 a.store(r)
                 val[i] = a
                 return
